@@ -313,6 +313,7 @@ func c06R4(c *Ctx, rule string) {
 			c.RequireAt(r, rule, key, s.Instr, "BootstrapCluster (which refuses when any state exists) returned nil", func(v engine.View) bool { return v.Seen("boot") && v.F("bootErr") })
 		}
 	}
+	sBootstrapGuard(c, rule)
 	// the in-memory term has a single writer chain
 	c.WhoMay(rule, "call (*raftState).setCurrentTerm", c.P.CallsEverywhere(engine.Is("(*raftState).setCurrentTerm")), map[string]string{
 		"(*Raft).setCurrentTerm": "persist-then-publish wrapper",
